@@ -89,6 +89,25 @@ func C17(c *Ctx) {
 				c.Fail("BytesMontgomery(P) != BytesMontgomery(-P)", det)
 			}
 		}
+		// a long-lived object: encoded, then given this case's point through an assigning method
+		if i%2 == 0 {
+			start := r.Point()
+			if start.P != nil {
+				obj := start.P
+				obj.BytesMontgomery()
+				if i%4 == 0 {
+					obj.Bytes()
+				}
+				if how := reassign(r, obj, m, int(i/2)); how != "" {
+					gotU := obj.BytesMontgomery()
+					c.Eval(!m.Eq(ref.Identity()), e[:], []byte("long-lived"), []byte(how))
+					c.Tally("long-lived object re-encoded after " + assignKey(how))
+					if string(gotU) != string(want[:]) {
+						c.Fail("an object that was encoded before and then given a new value has a different BytesMontgomery", map[string]any{"assignment": how, "want": hx(want[:]), "got": hx(gotU), "first-value": ptHex(start.M), "P": hx(e[:])})
+					}
+				}
+			}
+		}
 		c.Sample(cls, map[string]any{"P": hx(e[:]), "class": cls, "via": pc.Build, "u": hx(want[:])})
 	}
 	_ = gen.NBuild
